@@ -159,9 +159,12 @@ func (c *mtastsPolicy) Close() error {
 }
 
 func (c *mtastsDelivery) PrepareDomain(ctx context.Context, domain string) {
-	c.policyFut = future.New()
+	// The goroutine should set the future it was started for, c.policyFut may
+	// be replaced (next domain) before the lookup completes.
+	fut := future.New()
+	c.policyFut = fut
 	go func() {
-		c.policyFut.Set(c.c.mtastsGet(ctx, domain))
+		fut.Set(c.c.mtastsGet(ctx, domain))
 	}()
 }
 
@@ -474,7 +477,10 @@ func (c *daneDelivery) PrepareConn(ctx context.Context, mx string) {
 		return
 	}
 
-	c.tlsaFut = future.New()
+	// The goroutine should set the future it was started for, c.tlsaFut may
+	// be replaced (next MX) before the lookup completes.
+	fut := future.New()
+	c.tlsaFut = fut
 
 	go func() {
 		defer func() {
@@ -484,7 +490,7 @@ func (c *daneDelivery) PrepareConn(ctx context.Context, mx string) {
 			}
 		}()
 
-		c.tlsaFut.Set(c.discoverTLSA(ctx, dns.FQDN(mx)))
+		fut.Set(c.discoverTLSA(ctx, dns.FQDN(mx)))
 	}()
 }
 
